@@ -30,6 +30,30 @@ def generate(chk, prop, tier, seed):
     for b in exh:
         b["fam"] = "exh"
     behs.extend(exh)
+    if prop == "C04":
+        # every catalogue variant continued at every token boundary (sweep: one non-default variant per program, the edit on that statement)
+        for part in ("exec", "spec"):
+            cfg = "Perturb_c04v_%s_%s.cfg" % (part, "quick" if tier == "quick" else "thorough")
+            r = tlc.run("MCPerturb.tla", cfg, timeout=20000)
+            if not r.ok():
+                raise MachineryError("TLC failed on %s: %s %s" % (cfg, r.invariant_violated, r.error))
+            chk.add_tlc(r)
+            chk.cov["tlc_runs"].append({"cfg": cfg, "generated": r.generated, "distinct": r.distinct, "behaviours": len(r.beh), "wall_s": r.wall_s})
+            for b in r.beh:
+                if b["ed"] and any(x["v"] > 1 for x in b["out"]):
+                    b["fam"] = "variant-sweep"
+                    behs.append(b)
+    if prop == "C11":
+        cfg = "Perturb_c11s_%s.cfg" % ("quick" if tier == "quick" else "thorough")
+        r = tlc.run("MCPerturb.tla", cfg, timeout=6000)
+        if not r.ok():
+            raise MachineryError("TLC failed on %s: %s %s" % (cfg, r.invariant_violated, r.error))
+        chk.add_tlc(r)
+        chk.cov["tlc_runs"].append({"cfg": cfg, "generated": r.generated, "distinct": r.distinct, "behaviours": len(r.beh), "wall_s": r.wall_s})
+        for b in r.beh:
+            if any(e["t"] == "cmt" and e["a"] in (3, 4, 5) for e in b["ed"]):
+                b["fam"] = "exh-literals"
+                behs.append(b)
     if prop == "C08":
         # second exhaustive family: an END-name edit together with a comment / directive line (which BlockBase collects in front of
         # the opening statement it then compares the END name with)
@@ -186,7 +210,8 @@ def build_case(prop, b):
         for i, l in lay["phys"]:
             per.setdefault(i, []).append(l)
         incs = [(e["pos"], e["a"]) for e in ed if e["t"] == "inc"]
-        main, files = perturb.split_includes(per, stmts, incs)
+        style = b["id"] % perturb.INC_STYLES
+        main, files = perturb.split_includes(per, stmts, incs, style=style)
         nested_names = files.pop("__nested__")
         msrc = "\n".join(main) + "\n"
         decoy = {fn: "  this is not fortran @@\n" for fn in files}
@@ -195,13 +220,14 @@ def build_case(prop, b):
                 dict(name="file", src=msrc, std=std, ic=True, files={"d1": files}, reader="file"),
                 dict(name="order", src=msrc, std=std, ic=True, files={"d1": files, "d2": decoy}, dirs=["d1", "d2"], reader="string"),
                 dict(name="absent", src=msrc, std=std, ic=True, files={"d1": {}}, reader="string", want=["leaves", "textfull"])]
+        if perturb.inc_name(1, style)[2] is None:
+            jobs.pop()
         # the same file included twice (legal): equals the program with those statements repeated
         simple = [ab for ab in incs if all(out[i - 1]["k"] == "s" and out[i - 1]["l"] == 0 for i in range(ab[0], ab[1] + 1))
                   and not any(o != ab and o[0] <= ab[0] and ab[1] <= o[1] for o in incs) and not any(o != ab and ab[0] <= o[0] and o[1] <= ab[1] for o in incs)]
         if simple:
             a_, b_ = simple[0]
-            fname = "inc%d.inc" % (sorted(incs, key=lambda ab: (ab[0], -ab[1])).index((a_, b_)) + 1)
-            line = "  include '%s'" % fname
+            line = "  " + perturb.inc_name(sorted(incs, key=lambda ab: (ab[0], -ab[1])).index((a_, b_)) + 1, style)[1]
             k_ = main.index(line)
             main2 = main[:k_ + 1] + [line] + main[k_ + 1:]
             twice_stmts = stmts[:b_] + stmts[a_ - 1:b_] + stmts[b_:]
@@ -214,7 +240,7 @@ def build_case(prop, b):
             d2 = {fn: (files[fn] if fn not in nested_names else decoy[fn]) for fn in files}
             jobs.insert(4, dict(name="split", src=msrc, std=std, ic=True, files={"d1": d1, "d2": d2}, dirs=["d1", "d2"], reader="file"))
         # the absent case is only meaningful when the cut is at one nesting level and leaves valid source
-        meta = {"incs": incs, "files": files, "main": msrc,
+        meta = {"incs": incs, "files": files, "main": msrc, "inc_style": style,
                 "nested": any(o != ab and o[0] <= ab[0] and ab[1] <= o[1] for o in incs for ab in incs)}
     return {"id": b["id"], "jobs": jobs, "meta": meta, "fam": b["fam"], "out": out, "ed": ed, "beh_extra": {k: b[k] for k in ("leaves", "valid", "stream") if k in b}}
 
@@ -235,7 +261,8 @@ def fixed_lines_per_stmt(stmts):
 
 
 def par_edit(line, a, b):
-    """Delete (b = 1) the a-th parenthesis, or insert an opening (2) / closing (3) one at the a-th quarter, outside literals and comments."""
+    """Delete (b = 1) the a-th parenthesis, or insert an opening (2) / closing (3) one at the a-th eighth (every token boundary of a
+    statement of up to eight tokens), outside literals and comments."""
     toks = perturb.layout_tokens(line.strip())
     ind = line[:len(line) - len(line.lstrip())]
     # stop at a trailing comment
@@ -255,7 +282,7 @@ def par_edit(line, a, b):
     else:
         if not toks:
             return None
-        i = min(len(toks), max(1, (len(toks) * a) // 4))
+        i = min(len(toks), max(1, (len(toks) * a + 7) // 8))
         toks.insert(i, ("(" if b == 2 else ")", ""))
     return ind + perturb.join_tokens(toks)
 
@@ -282,12 +309,19 @@ def events_for(prop, case, res, D, ctr):
     for name, job in J.items():
         T[name] = parse_ev(ev, D, ctr, R[name]["src"], cfgid(job), R[name])
 
+    expected_obs = case.setdefault("obs_expected", {})
+
     def claim(law, name, **kw):
         d = {"e": "claim", "law": law, "src": D(R[name]["src"]), "cfg": cfgid(J[name])}
         d.update(kw)
+        if law == "obseq" and "val" in kw:
+            expected_obs[(name, kw["key"])] = D.text(kw["val"]) if hasattr(D, "text") else None
         ev.append(d)
 
+    seen_obs = case.setdefault("obs_seen", {})
+
     def obs_ev(name, key, val):
+        seen_obs[(name, key)] = val
         if T[name]:
             ev.append({"e": "obs", "tree": T[name], "key": key, "val": D(val)})
 
@@ -407,13 +441,13 @@ def events_for(prop, case, res, D, ctr):
                 r_ = next((ab for ab in incs if ab[0] == i), None)
                 if r_:
                     k += 1
-                    exp.append(("s", "INCLUDE 'inc%d.inc'" % (incs.index(r_) + 1)))
+                    exp.append(("s", perturb.inc_name(incs.index(r_) + 1, case["meta"].get("inc_style", 0))[2]))
                     i = r_[1] + 1
                 else:
                     exp.append(tuple(pst[i - 1]))
                     i += 1
             case["meta"]["exp_absent"] = exp
-            if R["absent"]["o"]["res"] == "ok":
+            if "absent" in R and R["absent"]["o"]["res"] == "ok":
                 # "provided the source is valid with it in place": only claimed when the parser accepts
                 obs_ev("absent", "leaves", repr([tuple(x) for x in R["absent"]["leaves"]]))
                 claim("obseq", "absent", key="leaves", val=D(repr(exp)))
@@ -425,6 +459,21 @@ def signature(prop, case, res, clause):
     if prop == "C14":
         forms = sorted({e["a"] for e in case["ed"] if e["t"] == "cpp"})
         sig["has_angle_include"] = 18 in forms
+        # known finding KF-C14-1 is exactly: '#include <sys.h>' comes back as '#include "sys.h"' - and nothing else differs
+        only = 18 in forms
+        for key, want in case.get("obs_expected", {}).items():
+            got = case.get("obs_seen", {}).get(key)
+            if want is None or got is None or got == want:
+                continue
+            if got != want.replace("#include <sys.h>", '#include "sys.h"'):
+                only = False
+        sig["only_the_include_delimiters_differ"] = only
+        # known finding KF-C14-2: a directive between two component definitions splits the Component_Part node - and nothing else differs
+        if clause == "tree-differs" and res:
+            pst = res["jobs"].get("P", {}).get("st")
+            runs = [r_ for n_, r_ in res["jobs"].items() if n_ in ("ignore", "fix") and r_.get("st_nocpp") is not None]
+            sig["only_a_component_part_is_split"] = bool(runs) and all(r_["st_nocpp"] == pst or r_.get("st_nocpp_merged") == pst for r_ in runs) \
+                and any(r_["st_nocpp"] != pst for r_ in runs)
     if prop == "C13":
         files = case["meta"].get("files", {})
         first = []
@@ -511,6 +560,7 @@ def _record(case):
             if files is not None:
                 tmp = tempfile.mkdtemp(prefix="ptr", dir=os.path.join(common.WORK, "tmp"))
                 for fn, txt in files.items():
+                    os.makedirs(os.path.dirname(os.path.join(tmp, fn)), exist_ok=True)
                     with open(os.path.join(tmp, fn), "w") as f:
                         f.write(txt)
                 rkw["include_dirs"] = [tmp]
